@@ -27,7 +27,7 @@ pub struct Plan {
 fn gen(seed: u64, tier: Tier) -> Plan {
     let mut rng = Rng::new(seed);
     let max_n = if tier == Tier::Quick { 14 } else { 30 };
-    let style = *rng.pick(&["two-forks", "sparse-interior", "random", "light-long", "invalid-mid", "equal"]);
+    let style = *rng.pick(&["two-forks", "sparse-interior", "sparse-deep", "random", "light-long", "invalid-mid", "equal"]);
     let mut nodes: Vec<TreeNode> = vec![];
     let mut depth: Vec<u64> = vec![1];
     let healthy_gt = |d: u64| d % 2 == 0;
@@ -39,7 +39,7 @@ fn gen(seed: u64, tier: Tier) -> Plan {
         uid
     };
     match style {
-        "two-forks" | "light-long" | "equal" | "invalid-mid" | "sparse-interior" => {
+        "two-forks" | "light-long" | "equal" | "invalid-mid" | "sparse-interior" | "sparse-deep" => {
             let prefix = rng.below(4);
             let mut cur = 0u64;
             for _ in 0..prefix {
@@ -47,9 +47,11 @@ fn gen(seed: u64, tier: Tier) -> Plan {
                 cur = push(&mut nodes, &mut depth, cur, healthy_gt(d), 2000 + rng.below(2000), "", 1);
             }
             let fork = cur;
-            let a_len = rng.range(1, (max_n as u64 - prefix) / 2);
+            // sparse-deep: a long challenger whose ticket-poor window lies more than six blocks below its tip
+            let a_len = if style == "sparse-deep" { rng.range(11, 13) } else { rng.range(1, (max_n as u64 - prefix) / 2) };
             let b_len = match style {
                 "equal" => a_len,
+                "sparse-deep" => a_len + 1,
                 _ => a_len + rng.range(1, 2),
             };
             // fork A: honest, healthy
@@ -70,6 +72,9 @@ fn gen(seed: u64, tier: Tier) -> Plan {
                 let gt = if style == "sparse-interior" {
                     // no tickets in the interior, tickets only near the tip
                     j + 2 >= b_len
+                } else if style == "sparse-deep" {
+                    // one ticket among the first six blocks, a healthy alternation afterwards
+                    j == 4 || (j >= 6 && (j - 6) % 2 == 0)
                 } else {
                     healthy_gt(d)
                 };
@@ -159,7 +164,7 @@ impl Scenario for C05 {
     fn meta(&self) -> Meta {
         Meta {
             level: "exploration",
-            rule: "run = block tree (styles: two competing forks off a shared prefix; longer-but-lighter challenger via slow timestamps; equal-length forks; challenger with an invalid block at any position and honest children on top; challenger whose interior has no golden tickets; random trees) + seeded delivery order (fork after fork, or interleaved; rarely a child before its parent) into the real Blockchain::add_block. Monitor after every delivery: height never decreases; a tip move must go to a strictly longer chain with >= cumulative burn fee over the diverging segment, valid block by block (by construction) and >= 2 tickets in every 6-window; a delivered block that completes such a chain (strict ticket rule) must become the tip. distinct_nontrivial = distinct (tree, GT pattern, burn-fee ordering, delivery order) digests of runs with >= 2 competing tips stored at some moment.",
+            rule: "run = block tree (styles: two competing forks off a shared prefix; longer-but-lighter challenger via slow timestamps; equal-length forks; challenger with an invalid block at any position and honest children on top; challenger whose interior has no golden tickets; 12-14 block challenger whose only ticket-poor window lies more than six blocks below its tip; random trees) + seeded delivery order (fork after fork, or interleaved; rarely a child before its parent) into the real Blockchain::add_block. Monitor after every delivery: height never decreases; a tip move must go to a strictly longer chain with >= cumulative burn fee over the diverging segment, valid block by block (by construction) and >= 2 tickets in every 6-window; a delivered block that completes such a chain (strict ticket rule) must become the tip. distinct_nontrivial = distinct (tree, GT pattern, burn-fee ordering, delivery order) digests of runs with >= 2 competing tips stored at some moment.",
             real: &["Blockchain::add_block/is_new_chain_the_longest_chain/validate/is_golden_ticket_count_valid", "BurnFee", "Block::create/validate", "BlockRing"],
             stubs: &["SimIo", "SimConfig", "vendored ahash"],
             assumptions: &["validity by construction: honest builder output is valid, any edited block and all its descendants are invalid", "genesis period >> tree"],
